@@ -366,7 +366,24 @@ def h_rail_moved_to_another_component():
     return s, {}
 
 
-HISTORIES = [h_mux_first_input_relinked, h_mux_middle_input_relinked, h_source_renamed_after_solve,
+def h_dead_source_switched_on_after_solve():
+    """a 0 V source (first mux input, and feeding a converter of its own) is analysed, then replaced by a live one; a
+    second source that was inactive in one phase is made active in all - the tree shape never changes"""
+    s = System("h7", C.Source("aux", vo=0.0, rs=0.1))
+    s.add_source(C.Source("bat", vo=3.9, rs=0.1))
+    s.add_comp("aux", comp=C.Converter("cv", vo=1.8, eff=0.85, iq=1e-5))
+    s.add_comp("cv", comp=C.ILoad("core", ii=0.05))
+    s.add_comp(["aux", "bat"], comp=C.PMux("mux", rs=[0.1, 0.2], ig=1e-6))
+    s.add_comp("mux", comp=C.PLoad("radio", pwr=0.3))
+    s.set_sys_phases({"day": 10.0, "night": 20.0})
+    s.set_comp_phases("bat", ["day"])
+    _quiet_solve(s)
+    s.change_comp("aux", comp=C.Source("aux", vo=5.0, rs=0.1))
+    s.set_comp_phases("bat", ["day", "night"])
+    return s, {}
+
+
+HISTORIES = [h_dead_source_switched_on_after_solve, h_mux_first_input_relinked, h_mux_middle_input_relinked, h_source_renamed_after_solve,
              h_phase_configured_component_replaced_after_solve, h_freed_index_reused_below_later_node,
              h_rail_moved_to_another_component]
 
